@@ -169,7 +169,6 @@ def run(ctx):
                 res.violations.append({"what": "editing a non-accepted module changed the signature: %s -> %s" % (s2, s3),
                                        "input": case, "kf": None})
             # data function of the non-accepted module
-            import sys
             ext = sys.modules[extname]
             # (asked three times in the same process: a refusal must not wear off)
             for attempt in (1, 2, 3):
